@@ -158,6 +158,7 @@ GROUP_TRANSLATORS = {
     "stripe": "props.c04", "score": "props.c01", "maxi": "props.c07", "encode": "props.c05", "pwm": "props.c10",
     "disc": "props.c08", "scan": "props.c02", "dist": "props.c11", "io": "props.io_specs:C14_SPEC",
     "sampler": "props.c16", "tfm": "props.c12", "transfac": "props.transfac_specs:C14_SPEC",
+    "dense": "props.c19", "footprint": "props.c06", "pyidx": "props.c18:C18_SPEC", "pyglue": "props.c17",
 }
 
 
